@@ -147,8 +147,14 @@ func c06single(w *W, y *yielder, policy string, cap, prefill int, ops string, ta
 		}
 		// must return without waiting for the appender (the gate is closed)
 		if done, pv, _ := callWithWatchdog(20*time.Second, func() { c06producer(func() { submit(kind, id) }) }); !done {
-			if k, gr := stuckInLibrary("c06producer"); k != "" {
-				w.Violate("C06:call-waits-for-appender:"+policy, fmt.Sprintf("policy %s, buffer %d holding %d items, worker parked inside the appender: the call for %s does not return (%s inside the library)\n%s", policy, cap, len(m.queue), id, k, trunc(gr, 1200)),
+			k, gr := stuckInLibrary("c06producer")
+			if k == "" {
+				if in, g2 := stuckInAppender("c06producer"); in {
+					k, gr = "running the appender itself", g2
+				}
+			}
+			if k != "" {
+				w.Violate("C06:call-waits-for-appender:"+policy, fmt.Sprintf("policy %s, buffer %d holding %d items, worker parked inside the appender: the call for %s does not return (%s)\n%s", policy, cap, len(m.queue), id, k, trunc(gr, 1200)),
 					map[string]any{"policy": policy, "cap": cap, "prefill": prefill, "ops": ops})
 				w.flush()
 				os.Exit(0)
@@ -861,26 +867,26 @@ func init() {
 			for i := 0; i < 12; i++ {
 				s := d.NewSpec("enum", fmt.Sprintf("enum-%d", i), i, 12)
 				s.N = d.Pick(5, 7)
-				s.TimeoutS = 3000
+				s.TimeoutS = int(d.Pick(400, 3000))
 				specs = append(specs, s)
 			}
 			for i := 0; i < 4; i++ {
 				s := d.NewSpec("concurrent", fmt.Sprintf("conc-%d", i), 20+i, 12)
 				s.N = d.Pick(150, 1500)
-				s.TimeoutS = 3000
+				s.TimeoutS = int(d.Pick(400, 3000))
 				specs = append(specs, s)
 			}
 			for i := 0; i < 2; i++ {
 				s := d.NewSpec("concurrent", fmt.Sprintf("conc-race-%d", i), 30+i, 12)
 				s.N = d.Pick(15, 200)
 				s.Flavour = "race"
-				s.TimeoutS = 3000
+				s.TimeoutS = int(d.Pick(400, 3000))
 				specs = append(specs, s)
 			}
 			for i := 0; i < 3; i++ {
 				s := d.NewSpec("free", fmt.Sprintf("free-%d", i), 40+i, 12)
 				s.N = d.Pick(12, 200)
-				s.TimeoutS = 3000
+				s.TimeoutS = int(d.Pick(400, 3000))
 				if i == 2 {
 					s.Flavour = "race"
 				}
@@ -888,7 +894,7 @@ func init() {
 			}
 			rs := d.NewSpec("rolling", "rolling-async", 60, 12)
 			rs.N = d.Pick(1, 4)
-			rs.TimeoutS = 600
+			rs.TimeoutS = int(d.Pick(300, 600))
 			specs = append(specs, rs)
 			outs := d.RunWorkers(specs, 16)
 			d.raceVerdict(outs)
